@@ -166,3 +166,40 @@ def byref_forward_family(mode: str, version: int):
                 e.tag(77), logs(["v", "w", "z"]), ("Return", ("Int", 1)))
         out.append(("slots:byref-forward:%s" % label, prog(mode, main, V, dict(subs)), 3 + 6, False))
     return out
+
+
+def index_only_family(mode: str, version: int):
+    """explicitly numbered variables that are reached ONLY through their index (a dynamic variable pointing at them, a
+    by-reference argument), next to automatic variables that would fit onto their ids; and variables whose direct store is
+    immediately followed by their only direct load while they are also read through their index.  -> (name, recipe, needed, dup)"""
+    out = []
+    e = Env(mode, version)
+    setter = {"params": [("ref", "q")], "ret": "n", "body": ("PStore", "q", marker(e, 900))}
+    getter = {"params": [("ref", "q")], "ret": "u", "body": ("Return", ("PLoad", "q"))}
+    for sid in (0, 1, 2, 5):
+        for n_auto in (2, 4, 8):
+            autos = ["a%d" % i for i in range(n_auto)]
+            V = {a: {"t": "u"} for a in autos}
+            V["r"] = {"t": "u", "slot": sid}
+            V["d"] = {"t": "u", "dyn": True}
+            st = [("Store", a, marker(e, i)) for i, a in enumerate(autos)]
+            # (a) through a dynamic variable only
+            body = st + [("DynSet", "d", "r"), ("DynStore", "d", marker(e, 700)), e.tag(77),
+                         ("Un", "Log", _concat([("Un", "Itob", ("Load", a)) for a in autos] + [("Un", "Itob", ("DynLoad", "d"))])), ("Return", ("Int", 1))]
+            out.append(("slots:index-only:dyn:s%d:n%d" % (sid, n_auto), prog(mode, ("Seq",) + tuple(body), dict(V)), n_auto + 2, False))
+            # (b) through by-reference arguments only
+            V2 = {k: v for k, v in V.items() if k != "d"}
+            body = st + [("Call", "setter", ("Ref", "r")), e.tag(77),
+                         ("Un", "Log", _concat([("Un", "Itob", ("Load", a)) for a in autos] + [("Un", "Itob", ("Call", "getter", ("Ref", "r")))])), ("Return", ("Int", 1))]
+            out.append(("slots:index-only:byref:s%d:n%d" % (sid, n_auto), prog(mode, ("Seq",) + tuple(body), V2, {"setter": setter, "getter": getter}), n_auto + 3, False))
+    # a direct store immediately followed by the only direct load, plus a read through the index
+    for sid in (None, 3, 200):
+        V = {"x": {"t": "u"} if sid is None else {"t": "u", "slot": sid}, "d": {"t": "u", "dyn": True}, "y": {"t": "u"}}
+        body = [("Store", "x", marker(e, 1)), ("Store", "y", ("Bin", "BitwiseXor", ("Load", "x"), ("Int", 64))), ("DynSet", "d", "x"), e.tag(77),
+                ("Un", "Log", _concat([("Un", "Itob", ("DynLoad", "d")), ("Un", "Itob", ("Load", "y"))])), ("Return", ("Int", 1))]
+        out.append(("slots:adjacent-then-index:dyn:%s" % ("auto" if sid is None else "s%d" % sid), prog(mode, ("Seq",) + tuple(body), dict(V)), 3, False))
+        V2 = {k: v for k, v in V.items() if k != "d"}
+        body = [("Store", "x", marker(e, 1)), ("Store", "y", ("Bin", "BitwiseXor", ("Load", "x"), ("Int", 64))), e.tag(77),
+                ("Un", "Log", _concat([("Un", "Itob", ("Call", "getter", ("Ref", "x"))), ("Un", "Itob", ("Load", "y"))])), ("Return", ("Int", 1))]
+        out.append(("slots:adjacent-then-index:byref:%s" % ("auto" if sid is None else "s%d" % sid), prog(mode, ("Seq",) + tuple(body), V2, {"getter": getter}), 3, False))
+    return out
